@@ -13,6 +13,11 @@ package ipam_test
 //  3. with StrictAffinity, every newly allocated ordinal lands in a block whose Affinity is the
 //     allocating host (pending claims / other hosts' blocks are never used as ownership) -
 //     observed through the allocation's "node" attribute on the block write;
+//  5. when an AutoAssign of host H writes an allocation into a block whose Affinity is host:H,
+//     the affinity record (H, block) exists in state confirmed (or the legacy empty state) right
+//     after that write - unless another operation wrote that record since the AutoAssign started
+//     (a claim that is pending or being withdrawn must be re-confirmed before it is used as
+//     ownership, and a block's recorded affinity must be backed by a confirmed claim);
 //  4. whenever an operation that must find the block empty (ReleaseAffinity / ReleaseHostAffinities
 //     with mustBeEmpty, and every release the library does on its own initiative: reclaim of
 //     empty blocks, blocks of pools that no longer select the node) deletes a block or strips
@@ -35,6 +40,33 @@ import (
 	"github.com/projectcalico/calico/verifkit/ev"
 	"github.com/projectcalico/calico/verifkit/memds"
 )
+
+type c22AffWrite struct {
+	step int
+	op   *c19Op
+}
+
+type c22Forced struct {
+	host string
+	v6   bool
+}
+
+// c22AffPath parses "/calico/ipam/v2/host/<host>/ipv4/block/<a.b.c.d-len>".
+func c22AffPath(p string) (host, cidr string, ok bool) {
+	const pre = "/calico/ipam/v2/host/"
+	if !strings.HasPrefix(p, pre) {
+		return "", "", false
+	}
+	parts := strings.Split(p[len(pre):], "/")
+	if len(parts) != 4 || parts[2] != "block" {
+		return "", "", false
+	}
+	i := strings.LastIndex(parts[3], "-")
+	if i < 0 {
+		return "", "", false
+	}
+	return parts[0], parts[3][:i] + "/" + parts[3][i+1:], true
+}
 
 func c22LiveAllocs(b *model.AllocationBlock) []int {
 	var out []int
@@ -68,6 +100,11 @@ const c22SigClaimDuringRelease = "c22-claim-confirms-while-release-strips-block-
 type c22Scenario struct {
 	knownHit  bool
 	overwrote map[string]bool // "host|cidr": a claim rewrote this affinity from pendingDeletion to pending
+	affWrites map[string][]c22AffWrite // "host|cidr": writes to the affinity record, in step order
+	// targeted scenario: a release of host H's affinity dies right after marking it pendingDeletion
+	pdCrashed   map[string]bool // "host|cidr"
+	pdCrashes   int
+	forceAssign []c22Forced // AutoAssigns to start next on the given hosts
 	t       *rapid.T
 	r       *c19Runner
 	w       *c19World
@@ -127,6 +164,8 @@ func (s *c22Scenario) checkState() {
 func (s *c22Scenario) checkWrites(evs []memds.WriteEvent) {
 	for _, e := range evs {
 		if k, ok := e.Key.(model.BlockAffinityKey); ok {
+			key := k.Host + "|" + k.CIDR.String()
+			s.affWrites[key] = append(s.affWrites[key], c22AffWrite{step: s.r.step, op: s.r.byOp[e.Op]})
 			oa, _ := e.Old.(*model.BlockAffinity)
 			na, _ := e.New.(*model.BlockAffinity)
 			if oa != nil && na != nil && oa.State == model.StatePendingDeletion && na.State == model.StatePending {
@@ -161,6 +200,22 @@ func (s *c22Scenario) checkWrites(evs []memds.WriteEvent) {
 				s.classes["release-of-nonempty-block"] = true
 			}
 		}
+		// part 5: an AutoAssign that uses a block as its host's own needs a confirmed claim on it
+		if newB != nil && o.Kind == c19AutoAssign && newB.Affinity != nil && *newB.Affinity == "host:"+o.Host {
+			wasLive := map[int]bool{}
+			for _, x := range c22LiveAllocs(oldB) {
+				wasLive[x] = true
+			}
+			added := false
+			for _, ord := range c22LiveAllocs(newB) {
+				if !wasLive[ord] {
+					added = true
+				}
+			}
+			if added {
+				s.checkClaimBacksAllocation(o, newB.CIDR.String())
+			}
+		}
 		// part 3: new allocations under strict affinity
 		if s.strict && newB != nil {
 			wasLive := map[int]bool{}
@@ -189,6 +244,35 @@ func (s *c22Scenario) checkWrites(evs []memds.WriteEvent) {
 				s.classes["strict-allocation-checked"] = true
 			}
 		}
+	}
+}
+
+// checkClaimBacksAllocation: oracle part 5, evaluated right after the block write of o.
+func (s *c22Scenario) checkClaimBacksAllocation(o *c19Op, cidr string) {
+	key := o.Host + "|" + cidr
+	for _, w := range s.affWrites[key] {
+		if w.op != o && w.step >= o.startStep {
+			s.classes["claim-check-skipped-concurrent-writer"] = true
+			return // somebody else wrote the record while this AutoAssign was running
+		}
+	}
+	if s.pdCrashed[key] {
+		s.classes["assign-after-release-crashed-at-pendingDeletion"] = true
+	}
+	if ev.Known(c22SigClaimDuringRelease) && s.overwrote[key] {
+		s.knownHit = true
+		return
+	}
+	state := "<absent>"
+	for _, a := range s.w.snapshot().Affs {
+		if a.Host == o.Host && a.CIDR == cidr {
+			state = a.State
+		}
+	}
+	s.classes["claim-backs-allocation-checked"] = true
+	if state != string(model.StateConfirmed) && state != "" {
+		s.fail("step %d: %s allocated from block %s as its host's own block (block.Affinity=host:%s) but the affinity record (%s, %s) is %s, not confirmed, and nobody else wrote that record since the operation started",
+			s.r.step, o, cidr, o.Host, o.Host, cidr, state)
 	}
 }
 
@@ -244,10 +328,30 @@ func c22Run(t *rapid.T, rec *ev.Recorder, opsPerClient int) {
 	// hot blocks: two v4 blocks and one v6 block
 	gen.blocks4 = c19BlockCIDRs(c19PoolV4, 30)[:2]
 	gen.blocks6 = c19BlockCIDRs(c19PoolV6, 126)[:1]
-	s := &c22Scenario{t: t, w: w, strict: strict, hosts: hosts, classes: map[string]bool{}, overwrote: map[string]bool{}}
+	s := &c22Scenario{t: t, w: w, strict: strict, hosts: hosts, classes: map[string]bool{}, overwrote: map[string]bool{}, affWrites: map[string][]c22AffWrite{}, pdCrashed: map[string]bool{}}
 	fw := c19FaultWeights{Conflict: 30, Error: 5, CrashBefore: 5, CrashAfter: 5, MaxCrashes: 3}
 	s.r = c19NewRunner(t, w, fw)
 	gen.r = s.r
+	// Targeted scenario (at most twice per case): a release of host H's affinity is killed right
+	// after it marked the affinity pendingDeletion, i.e. before it touched the block; the next
+	// operation started on H is an AutoAssign in that block's address family.
+	s.r.faultHook = func(c *memds.Call, o *c19Op) (memds.Fault, bool) {
+		if o.Kind != c19ReleaseAffinity && o.Kind != c19ReleaseHostAffinities && o.Kind != c19RemoveIPAMHost {
+			return memds.FaultNone, false
+		}
+		host, cidr, ok := c22AffPath(c.Path)
+		if !ok || c.Method != "Update" || s.pdCrashes >= 2 {
+			return memds.FaultNone, false
+		}
+		if rapid.IntRange(0, 2).Draw(t, "crashAtPendingDeletion") != 0 {
+			return memds.FaultNone, false
+		}
+		s.pdCrashes++
+		s.pdCrashed[host+"|"+cidr] = true
+		s.forceAssign = append(s.forceAssign, c22Forced{host: host, v6: strings.Contains(cidr, ":")})
+		s.classes["release-crashed-at-pendingDeletion"] = true
+		return memds.FaultCrashAfter, true
+	}
 	s.r.onStep = func(evs []memds.WriteEvent) {
 		s.checkWrites(evs)
 		s.checkState()
@@ -291,12 +395,35 @@ func c22Run(t *rapid.T, rec *ev.Recorder, opsPerClient int) {
 	startIdle := func() bool {
 		any := false
 		for c := 0; c < 3; c++ {
-			if (cur[c] == nil || cur[c].finished) && started[c] < nOps[c] {
+			forced := false
+			for _, f := range s.forceAssign {
+				if f.host == clHost[c] {
+					forced = true // runs even when the client's script is used up
+				}
+			}
+			if (cur[c] == nil || cur[c].finished) && (started[c] < nOps[c] || forced) {
 				if rapid.IntRange(0, 5).Draw(t, "advanceTime") == 0 {
 					s.advanceTime(2 * time.Minute)
 					s.classes["time-advanced"] = true
 				}
-				o := gen.drawOp(t, c, fmt.Sprintf("c%d.%02d", c, started[c]))
+				id := fmt.Sprintf("c%d.%02d", c, started[c])
+				var o *c19Op
+				for i, f := range s.forceAssign {
+					if f.host == clHost[c] {
+						gen.uniq++
+						h := fmt.Sprintf("u%d", gen.uniq)
+						// enough addresses to walk through all of the host's affine blocks
+						o = &c19Op{ID: id, Client: c, Host: clHost[c], Kind: c19AutoAssign, Use: v3.IPPoolAllowedUseWorkload, Handle: &h, Num4: 6}
+						if f.v6 {
+							o.Num4, o.Num6 = 0, 6
+						}
+						s.forceAssign = append(s.forceAssign[:i], s.forceAssign[i+1:]...)
+						break
+					}
+				}
+				if o == nil {
+					o = gen.drawOp(t, c, id)
+				}
 				started[c]++
 				cur[c] = o
 				kinds = append(kinds, c19KindLetters[o.Kind])
